@@ -181,6 +181,38 @@ PURE_BUILTINS = {"ord": ord, "chr": chr, "zip": zip, "dict": dict, "len": len, "
                  "any": any, "all": all, "sum": sum, "abs": abs, "int": int, "bool": bool, "divmod": divmod, "repr": repr}
 
 
+class _ClassScope(dict):
+    """names of a class body, evaluated on demand (only plain data attributes: functions are not names of the scope an
+    expression of the body can call before the class exists ... they are, but the repo's tables never do)"""
+
+    def __init__(self, folder, owner):
+        dict.__init__(self)
+        self._folder, self._owner, self._busy = folder, owner, set()
+
+    def __contains__(self, k):
+        if dict.__contains__(self, k):
+            return True
+        raw = self._owner.attrs.get(k)
+        return isinstance(raw, (ast.AST, Const)) and k not in self._busy
+
+    def __getitem__(self, k):
+        if dict.__contains__(self, k):
+            return dict.__getitem__(self, k)
+        raw = self._owner.attrs.get(k)
+        if not isinstance(raw, (ast.AST, Const)) or k in self._busy:
+            raise KeyError(k)
+        self._busy.add(k)
+        try:
+            v = self._folder._attr_value(self._owner, raw, self._owner)
+        finally:
+            self._busy.discard(k)
+        dict.__setitem__(self, k, v)
+        return v
+
+    def get(self, k, default=None):
+        return self[k] if k in self else default
+
+
 class Folder(object):
     """Evaluator for the pure, concrete subset of Python that structure()
     and the helpers it calls are written in: strings, tuples, lists, dicts,
@@ -210,7 +242,8 @@ class Folder(object):
         raise AnalysisError("cannot evaluate attribute of %s" % owner.qualname)
 
     def _module_expr(self, owner: ClassInfo, e: ast.expr):
-        ev = _Frame(self, owner.module, {}, owner, None)
+        # the expression sits in the class body: the names bound earlier in that body are in scope
+        ev = _Frame(self, owner.module, _ClassScope(self, owner), owner, None)
         return ev.expr(e)
 
     def call_method(self, ci: ClassInfo, name: str, after: Optional[ClassInfo] = None):
